@@ -214,7 +214,7 @@ pub fn encode_table(rng: &mut Rng, cmp: &CmpKind, es: &[(Vec<u8>, Vec<u8>)], mut
         blocks.push((off, size, part.clone()));
         let last = &part[part.len() - 1].0;
         let sep = match cmp {
-            CmpKind::Reverse => last.clone(),
+            CmpKind::Reverse | CmpKind::LenFirst => last.clone(),
             CmpKind::Bytewise => {
                 let next_first = parts.get(bi + 1).map(|p| p[0].0.clone());
                 let mut cands: Vec<Vec<u8>> = vec![last.clone()];
